@@ -34,6 +34,11 @@ type Case struct {
 	Method    string   // method spec, e.g. "M12(*S12) *D12"
 	Alone     bool     // travels alone (predicted rejection / crash-prone)
 	Data      any      // family-specific
+	// Group names a second converter interface (marked with :convergen, declared ABOVE interface Convergen and
+	// sorting before it) that holds this case's method; GroupNotes are its interface-level notation lines
+	// (identical for all cases of a group).
+	Group      string
+	GroupNotes []string
 }
 
 // Result is the observation of one case.
@@ -79,6 +84,9 @@ type Options struct {
 	Imports []ExtPkg
 	// TypeNames are further names the projector treats as types (conversions).
 	TypeNames []string
+	// IsoContext returns further cases that accompany a suspect when it is re-run in isolation (their own
+	// results are ignored): families whose cases interact through a second interface keep that context.
+	IsoContext func(*Case) []*Case
 }
 
 // ExtPkg is one imported package of the scratch module: Path is relative to
@@ -216,19 +224,65 @@ func render(opt *Options, dir, pkg string, cases []*Case) (files map[string]stri
 			line++
 		}
 	}
-	body.WriteString("type Convergen interface {\n")
-	line++
-	for _, c := range cases {
+	writeCase := func(c *Case) {
 		for _, n := range c.Notes {
 			body.WriteString("\t// " + n + "\n")
 			noteLines[c.ID] = append(noteLines[c.ID], line)
 			line++
 		}
 		body.WriteString("\t" + c.Method + "\n")
+		// a case may bring a companion method above its own (Method spans several lines): the case's method is the last
+		line += strings.Count(c.Method, "\n")
 		methodLine[c.ID] = line
 		line++
 	}
-	body.WriteString("}\n")
+	// grouped cases first, each group in an interface of its own
+	var groups []string
+	seenGroup := map[string]bool{}
+	plain := 0
+	for _, c := range cases {
+		if c.Group == "" {
+			plain++
+		} else if !seenGroup[c.Group] {
+			seenGroup[c.Group] = true
+			groups = append(groups, c.Group)
+		}
+	}
+	sort.Strings(groups)
+	for _, g := range groups {
+		first := true
+		for _, c := range cases {
+			if c.Group != g {
+				continue
+			}
+			if first {
+				body.WriteString("// :convergen\n")
+				line++
+				for _, n := range c.GroupNotes {
+					body.WriteString("// " + n + "\n")
+					line++
+				}
+				body.WriteString("type " + g + " interface {\n")
+				line++
+				first = false
+			}
+			writeCase(c)
+		}
+		body.WriteString("}\n\n")
+		line += 2
+	}
+	if plain > 0 || len(groups) == 0 {
+		body.WriteString("type Convergen interface {\n")
+		line++
+		for _, c := range cases {
+			if c.Group == "" {
+				writeCase(c)
+			}
+		}
+	}
+	if plain > 0 || len(groups) == 0 {
+		body.WriteString("}\n")
+	}
 	setup.WriteString(body.String())
 	var sibHead strings.Builder
 	sibHead.WriteString("package " + pkg + "\n\n")
@@ -371,9 +425,13 @@ func Run(c *core.Ctx, opt Options, cases []*Case, judge func(*Result) Verdict) S
 		mu.Unlock()
 		if r == nil {
 			dir := fmt.Sprintf("iso%05d", i)
-			files, ml, nl := render(&opt, dir, "p", []*Case{cs})
+			isoCases := []*Case{cs}
+			if opt.IsoContext != nil && !cs.Alone {
+				isoCases = append(isoCases, opt.IsoContext(cs)...)
+			}
+			files, ml, nl := render(&opt, dir, "p", isoCases)
 			_ = core.WriteFiles(root, files)
-			p := &pack{dir: dir, cases: []*Case{cs}}
+			p := &pack{dir: dir, cases: isoCases}
 			p.res = tool.Run(core.RunOpts{Dir: filepath.Join(root, dir), Args: []string{"setup.go"}})
 			var cerrs []string
 			unf := false
